@@ -36,6 +36,10 @@ func TestFindingD28(t *testing.T) {
 		}
 	}
 	after := settle()
+	for i := 0; i < 40 && after > before; i++ { // a closed otter cache stops its workers within about a second
+		time.Sleep(200 * time.Millisecond)
+		after = runtime.NumGoroutine()
+	}
 	if after > before {
 		t.Fatalf("5 failed initCache calls left %d goroutines behind (before %d, after %d): the memory cache created before the redis failure was never closed", after-before, before, after)
 	}
